@@ -243,3 +243,46 @@ def generate(repo, emit, src, func_body):
         and re.search(r'gc->nitems--;\s*dealloc\(destruct\(freeitem\)\);\s*return;', b) \
         and re.search(r'if\s*\(\s*h\s+is\s+0\s+or\s+j\s*>\s*GC_Probe\(gc,\s*i,\s*h\)\s*\)\s*\{\s*return;\s*\}', b)
     emit('hdr_rem_releases', 'Definition hdr_rem_releases : bool := true.' if okr else None)
+
+    # ---------------------------------------------------------------- storage layout (size(type) bytes usable)
+    def shape(name, ok):
+        emit(name, ('Definition %s : bool := true.' % name) if ok else None)
+
+    H = r'sizeof\(struct Header\)'
+    b = func_body(a, r'static\s+var\s+alloc_by\s*\(\s*var\s+type\s*,\s*int\s+method\s*\)\s*\{')
+    shape('hdr_lay_alloc_by', b and re.search(r'calloc\(1,\s*%s\s*\+\s*size\(type\)\)' % H, b))
+    shape('hdr_lay_stack', re.search(r'#define\s+CelloStruct\(T,\s*\.\.\.\)\s*CelloObject\(T,\s*sizeof\(struct T\),', h)
+          and re.search(r'\(char\[%s\s*\+\s*sizeof\(struct T\)\]\)\{0\}' % H, h))
+    ar = src('src/Array.c')
+    shape('hdr_lay_array',
+          re.search(r'static\s+size_t\s+Array_Step\(struct Array\*\s*a\)\s*\{\s*return\s+a->tsize\s*\+\s*%s;\s*\}' % H, ar)
+          and re.search(r'static\s+var\s+Array_Item\(struct Array\*\s*a,\s*size_t\s+i\)\s*\{\s*return\s+\(char\*\)a->data\s*\+\s*Array_Step\(a\)\s*\*\s*i\s*\+\s*%s;\s*\}' % H, ar)
+          and re.search(r'static\s+size_t\s+Array_Size_Round\(size_t\s+s\)\s*\{\s*return\s+\(\(s\s*\+\s*sizeof\(var\)\s*-\s*1\)\s*/\s*sizeof\(var\)\)\s*\*\s*sizeof\(var\);\s*\}', ar)
+          and len(re.findall(r'a->tsize\s*=\s*Array_Size_Round\(size\(a->type\)\);', ar)) == len(re.findall(r'a->tsize\s*=', ar))
+          and re.search(r'struct Header\*\s*head\s*=\s*\(struct Header\*\)\(\(char\*\)a->data\s*\+\s*Array_Step\(a\)\s*\*\s*i\);', ar)
+          and all(re.search(r'Array_Step\(a\)\s*\*\s*a->nslots|a->nslots\s*\*\s*Array_Step\(a\)', x)
+                  for x in re.findall(r'(?:malloc|realloc)\([^;]*;', ar)))
+    li = src('src/List.c')
+    shape('hdr_lay_list',
+          re.search(r'var\s+item\s*=\s*calloc\(1,\s*2\s*\*\s*sizeof\(var\)\s*\+\s*%s\s*\+\s*l->tsize\);' % H, li)
+          and re.search(r'return\s+header_init\(\(struct Header\*\)\(\s*\(char\*\)item\s*\+\s*2\s*\*\s*sizeof\(var\)\),\s*l->type,', li)
+          and len(re.findall(r'l->tsize\s*=\s*size\(l->type\);', li)) == len(re.findall(r'l->tsize\s*=', li)))
+    tr = src('src/Tree.c')
+    shape('hdr_lay_tree',
+          re.search(r'var\s+node\s*=\s*calloc\(1,\s*3\s*\*\s*sizeof\(var\)\s*\+\s*%s\s*\+\s*m->ksize\s*\+\s*%s\s*\+\s*m->vsize\);' % (H, H), tr)
+          and re.search(r'var\s+key\s*=\s*header_init\(\(struct Header\*\)\(\s*\(char\*\)node\s*\+\s*3\s*\*\s*sizeof\(var\)\),\s*m->ktype,', tr)
+          and re.search(r'var\s+val\s*=\s*header_init\(\(struct Header\*\)\(\s*\(char\*\)node\s*\+\s*3\s*\*\s*sizeof\(var\)\s*\+\s*%s\s*\+\s*m->ksize\),\s*m->vtype,' % H, tr)
+          and re.search(r'static\s+var\s+Tree_Key\([^)]*\)\s*\{\s*return\s+\(char\*\)node\s*\+\s*3\s*\*\s*sizeof\(var\)\s*\+\s*%s;\s*\}' % H, tr)
+          and re.search(r'static\s+var\s+Tree_Val\([^)]*\)\s*\{\s*return\s+\(char\*\)node\s*\+\s*3\s*\*\s*sizeof\(var\)\s*\+\s*%s\s*\+\s*m->ksize\s*\+\s*%s;\s*\}' % (H, H), tr)
+          and len(re.findall(r'm->ksize\s*=\s*size\(m->ktype\);', tr)) == len(re.findall(r'm->ksize\s*=', tr))
+          and len(re.findall(r'm->vsize\s*=\s*size\(m->vtype\);', tr)) == len(re.findall(r'm->vsize\s*=', tr)))
+    ta = src('src/Table.c')
+    shape('hdr_lay_table',
+          re.search(r'static\s+size_t\s+Table_Step\([^)]*\)\s*\{\s*return\s+sizeof\(uint64_t\)\s*\+\s*%s\s*\+\s*t->ksize\s*\+\s*%s\s*\+\s*t->vsize;\s*\}' % (H, H), ta)
+          and re.search(r'static\s+var\s+Table_Key\([^)]*\)\s*\{\s*return\s+\(char\*\)t->data\s*\+\s*i\s*\*\s*Table_Step\(t\)\s*\+\s*sizeof\(uint64_t\)\s*\+\s*%s;\s*\}' % H, ta)
+          and re.search(r'static\s+var\s+Table_Val\([^)]*\)\s*\{\s*return\s+\(char\*\)t->data\s*\+\s*i\s*\*\s*Table_Step\(t\)\s*\+\s*sizeof\(uint64_t\)\s*\+\s*%s\s*\+\s*t->ksize\s*\+\s*%s;\s*\}' % (H, H), ta)
+          and re.search(r'struct Header\*\s*khead\s*=\s*\(struct Header\*\)\s*\(\(char\*\)t->sspace0\s*\+\s*sizeof\(uint64_t\)\);', ta)
+          and re.search(r'struct Header\*\s*vhead\s*=\s*\(struct Header\*\)\s*\(\(char\*\)t->sspace0\s*\+\s*sizeof\(uint64_t\)\s*\+\s*%s\s*\+\s*t->ksize\);' % H, ta)
+          and len(re.findall(r't->ksize\s*=\s*Table_Size_Round\(size\(t->ktype\)\);', ta)) == len(re.findall(r't->ksize\s*=', ta))
+          and len(re.findall(r't->vsize\s*=\s*Table_Size_Round\(size\(t->vtype\)\);', ta)) == len(re.findall(r't->vsize\s*=', ta))
+          and re.search(r'static\s+size_t\s+Table_Size_Round\(size_t\s+s\)\s*\{\s*return\s+\(\(s\s*\+\s*sizeof\(var\)\s*-\s*1\)\s*/\s*sizeof\(var\)\)\s*\*\s*sizeof\(var\);\s*\}', ta))
